@@ -15,6 +15,6 @@ PROP = {'title': 'Fetch output stays inside the chosen directory',
                'required not to yield ".", ".." or a name with "/" (POSIX separator) or longer than 255 bytes: it feeds store_chunk, which applies the full rule. Completeness '
                '(a harmless name is kept) is recorded as a label, not asserted.',
  'assumptions': ['POSIX filesystem semantics (the only path separator is "/"); names are bytes', 'the honest local daemon of the black-box part is a harness fake speaking the control protocol'],
- 'tiers': {'quick': [rc(2000), script(['{ROOT}/harness/C31_hyp.py', '--cases', '100', '--workers', '4'], name='hyp', label='Hypothesis black-box (eph fetch into a directory)', timeout_s=900)],
+ 'tiers': {'quick': [rc(2500), script(['{ROOT}/harness/C31_hyp.py', '--cases', '120', '--workers', '4'], name='hyp', label='Hypothesis black-box (eph fetch into a directory)', timeout_s=900)],
            'thorough': [rc(12000, W), fuzz(120, 4, max_len=8 + 4 * 10),
                         script(['{ROOT}/harness/C31_hyp.py', '--cases', '1500', '--workers', '8'], name='hyp', label='Hypothesis black-box (eph fetch into a directory)', timeout_s=3600)]}}
